@@ -548,7 +548,12 @@ class ObjectBase(EntityContainer):
                 values = getattr(child, "_values", None)
                 if values is None:
                     values = child.workspace.fetch_values(child)
-                child.values = np.delete(values, indices, axis=0)
+                stored = indices
+                if isinstance(values, np.ndarray) and values.ndim > 0:
+                    # stored arrays may be shorter than the geometry
+                    # (completed with no-data values when read)
+                    stored = indices[indices < values.shape[0]]
+                child.values = np.delete(values, stored, axis=0)
                 if clear_cache:
                     clear_array_attributes(child)
 
